@@ -122,6 +122,16 @@ def c01_after_mutation(R, n=2):
                 if not requery(f'after add_transition({p!r}, epsilon, {q!r})'): return fails
                 aut.remove_transition(p, 'epsilon', q); cur = S.mk(cur[0], cur[1], cur[2], cur[3], set(cur[4]) - {(p, None, q)})
                 if not requery(f'after remove_transition({p!r}, epsilon, {q!r})'): return fails
+        # removing a transition that does not exist changes nothing (every class, incl. the deterministic transition function)
+        for cname, cls in classes_for(R):
+            x = S.build(R, cls); before = S.extract(x)
+            for p in sts:
+                for a in sorted(R[1], key=repr) + ([None] if cname == 'ENFA' else []):
+                    for q in sts:
+                        if (p, a, q) in R[4]: continue
+                        got = x.remove_transition(p, 'epsilon' if a is None else a, q)
+                        if S.extract(x) != before or got != 0:
+                            fails.append(fail(f'C01.remove_transition[{cname}].absent', f'remove_transition({p!r}, {a!r}, {q!r}) of an absent transition returned {got} and left {S.to_json(S.extract(x))}')); return fails
         for (p, a, q) in sorted(R[4], key=repr)[:3]:
             aut.remove_transition(p, 'epsilon' if a is None else a, q); cur = S.mk(cur[0], cur[1], cur[2], cur[3], set(cur[4]) - {(p, a, q)})
             if not requery(f'after remove_transition({p!r}, {a!r}, {q!r})'): return fails
